@@ -204,6 +204,8 @@ def run_topology(rnd, stats, klass):
                 if {c.output_node.name for c in r.inputs.values()} != {c.output_node.name for c in n.inputs.values()}:
                     V.append(dict(clause="roundtrip_connections_differ", node=k))
                     continue
+                if set(r.inputs.keys()) != set(n.inputs.keys()):
+                    V.append(dict(clause="roundtrip_input_names_differ", node=k, original=sorted(n.inputs.keys()), rebuilt=sorted(r.inputs.keys())))
                 by_out = {c.output_node.name: c for c in r.inputs.values()}
                 for c in n.inputs.values():
                     c2 = by_out[c.output_node.name]
@@ -211,7 +213,7 @@ def run_topology(rnd, stats, klass):
                         V.append(dict(clause="roundtrip_connection_settings_differ", conn=f"{c.output_node.name}->{k}", original=(c.window, c.skip, c.blocking, str(c.jitter), float(c.delay)),
                                       rebuilt=(c2.window, c2.skip, c2.blocking, str(c2.jitter), float(c2.delay))))
                 ri, ni = r.info, n.info
-                if abs(float(ri.phase) - float(ni.phase)) > 1e-9 or set(ri.inputs) != set(ni.inputs):
+                if abs(float(ri.phase) - float(ni.phase)) > 1e-9 or set(ri.inputs) != set(ni.inputs) or any(ri.inputs[u].name != ni.inputs[u].name for u in ni.inputs if u in ri.inputs):
                     V.append(dict(clause="roundtrip_info_differs", node=k))
             # ---- closing an un-skipped cycle AFTER phases were read must be reported
             if N >= 2 and rnd.random() < 0.5:
